@@ -15,6 +15,9 @@ import (
 //     needed) and leaves every other field of the receiver untouched;
 //   - unexported fields are ignored.
 // The encoded form is an opaque 8-byte token; its length is not the real encoding's length.
+// Syntactically identical content gets the same token (gob is deterministic); content that is
+// only equal under the path condition gets distinct tokens (harnesses that depend on byte
+// equality of two encodings offer the identical value by an explicit choice).
 
 type gobAbsent struct{}
 
@@ -126,6 +129,50 @@ func (r *Run) gobMerge(t types.Type, dst *value, flat value) {
 	}
 }
 
+// gobSame: syntactic identity of two flattened values.
+func gobSame(a, b value) bool {
+	switch x := a.(type) {
+	case gobAbsent:
+		_, ok := b.(gobAbsent)
+		return ok
+	case *Term:
+		y, ok := b.(*Term)
+		if !ok {
+			return false
+		}
+		if x == y {
+			return true
+		}
+		return x.IsConst() && y.IsConst() && x.Kind == y.Kind && x.W == y.W && x.K == y.K
+	case string:
+		y, ok := b.(string)
+		return ok && x == y
+	case structure:
+		y, ok := b.(structure)
+		if !ok || len(x) != len(y) {
+			return false
+		}
+		for i := range x {
+			if !gobSame(x[i], y[i]) {
+				return false
+			}
+		}
+		return true
+	case []value:
+		y, ok := b.([]value)
+		if !ok || len(x) != len(y) {
+			return false
+		}
+		for i := range x {
+			if !gobSame(x[i], y[i]) {
+				return false
+			}
+		}
+		return true
+	}
+	return false
+}
+
 func registerGobModel(e *Engine) {
 	in := e.intr
 	in["encoding/gob.NewEncoder"] = func(fr *frame, args []value) value {
@@ -150,8 +197,20 @@ func registerGobModel(e *Engine) {
 			t, v = p.Elem(), *pv
 		}
 		flat := r.gobFlatten(fr, t, v)
-		r.gobTab = append(r.gobTab, gobBlob{t: t, v: flat})
-		id := len(r.gobTab) - 1
+		// gob is deterministic: the same content encodes to the same bytes. The model keeps that
+		// for content that is syntactically identical (same constants, same symbolic terms);
+		// values that are merely equal under the path condition still get distinct tokens.
+		id := -1
+		for i, b := range r.gobTab {
+			if types.Identical(b.t, t) && gobSame(b.v, flat) {
+				id = i
+				break
+			}
+		}
+		if id < 0 {
+			r.gobTab = append(r.gobTab, gobBlob{t: t, v: flat})
+			id = len(r.gobTab) - 1
+		}
 		tok := []value{BV(8, 'G'), BV(8, 'O'), BV(8, 'B'), BV(8, 1), BV(8, uint64(id>>24)&0xff), BV(8, uint64(id>>16)&0xff), BV(8, uint64(id>>8)&0xff), BV(8, uint64(id)&0xff)}
 		res := callMethod(fr, w, "Write", tok)
 		if tp, ok := res.(tuple); ok {
